@@ -528,14 +528,16 @@ impl FixtureDatabase {
         debug!("Checking lib path: {:?}", lib_path);
 
         if lib_path.exists() {
-            // Look for python* directories
+            // Look for python* directories (pypy* in a PyPy virtualenv)
             if let Ok(entries) = std::fs::read_dir(&lib_path) {
                 for entry in entries.flatten() {
                     let path = entry.path();
                     let dirname = path.file_name().unwrap_or_default().to_string_lossy();
                     debug!("Found in lib: {:?}", dirname);
 
-                    if path.is_dir() && dirname.starts_with("python") {
+                    if path.is_dir()
+                        && (dirname.starts_with("python") || dirname.starts_with("pypy"))
+                    {
                         let site_packages = path.join("site-packages");
                         debug!("Checking site-packages: {:?}", site_packages);
 
